@@ -8,7 +8,8 @@ From TU Require Import Base C13_Model C13_Walk C13_F1 C13_Ws C13_Sp C13_Proofs.
 From TU Require C10_Model C11_Model C12_Model C18_Model.
 From Coq Require Reals Qreals.
 From Flocq Require Core IEEE754.BinarySingleNaN.
-From TU Require C13_Float C13_FloatProofs.
+From Coq Require Lra.
+From TU Require C13_Float C13_FloatProofs C13_FloatClose.
 Open Scope nat_scope.
 
 (** ** F-beta *)
@@ -165,7 +166,7 @@ Print Assumptions check_run.
 
 (** ** binary64: the arithmetic of the metrics inside the model (C13_Float.v) *)
 Module Fl.
-Import Reals Qreals Core BinarySingleNaN C13_Float C13_FloatProofs.
+Import Reals Qreals Lra Core BinarySingleNaN C13_Float C13_FloatProofs C13_FloatClose.
 
 (** "F-beta <= 1" is FALSE of the expression [_f1] had before the repair (/repo d11): for
     tp = 1000, fp = 0, fn = 2, beta = 1.9243201927590334e-08 the binary64 result is 1 + 2^-52 *)
@@ -257,17 +258,31 @@ Theorem accuracy_fl_range : forall p t x,
 Proof. exact accuracy_fl_range_l. Qed.
 Print Assumptions accuracy_fl_range.
 
-(** (5, partial) the binary64 precision and recall are within relative 2^-53 of the rational model's
-    ([C13_Model.f1], about which [f1_range] ... [check_run] above speak). The same for F-beta is not proved:
-    see notes/C13.md. *)
-Theorem q_close_partial : forall (betaq : Q) beta tp fp fn,
+(** (5) the binary64 results of the repaired [_f1] against the rational model ([C13_Model.f1], about which
+    [f1_range] ... [check_run] above speak), for a rational beta equal to the float beta: F-beta within
+    relative 2^-49, precision and recall within relative 2^-53 — for EVERY beta with a finite square
+    (underflow of beta^2 included) and counts below 2^53 *)
+Theorem q_close : forall (betaq : Q) beta tp fp fn,
+  Q2R betaq = B2R beta -> is_finite (fmul beta beta) = true ->
   (Z.of_nat (tp + fp) < 2 ^ 53)%Z -> (Z.of_nat (tp + fn) < 2 ^ 53)%Z ->
+  Rabs (B2R (c1f (f1_fl beta tp fp fn)) - Q2R (C13_F1.c1 (f1 betaq tp fp fn)))
+    <= bpow radix2 (-49) * Q2R (C13_F1.c1 (f1 betaq tp fp fn)) /\
   Rabs (B2R (c2f (f1_fl beta tp fp fn)) - Q2R (c2 (f1 betaq tp fp fn)))
     <= bpow radix2 (-53) * Q2R (c2 (f1 betaq tp fp fn)) /\
   Rabs (B2R (c3f (f1_fl beta tp fp fn)) - Q2R (c3 (f1 betaq tp fp fn)))
     <= bpow radix2 (-53) * Q2R (c3 (f1 betaq tp fp fn)).
-Proof. exact f1_q_close_pr_l. Qed.
-Print Assumptions q_close_partial.
+Proof.
+  intros betaq beta tp fp fn Hq Fb H1 H2. split.
+  - exact (f1_q_close_F_l betaq beta tp fp fn Hq Fb H1 H2).
+  - exact (f1_q_close_pr_l betaq beta tp fp fn H1 H2).
+Qed.
+Print Assumptions q_close.
+(** the premise: beta = 0.5 as a float and as the rational 1/2 *)
+Example q_close_premise : Q2R (1 # 2) = B2R (fdiv f_one (of_Z 2)).
+Proof.
+  replace (B2R (fdiv f_one (of_Z 2))) with (F2R (Float radix2 4503599627370496 (-53))) by (vm_compute; reflexivity).
+  unfold Q2R, F2R. cbn [Qnum Qden Fnum Fexp]. change (bpow radix2 (-53)) with (/ 9007199254740992). lra.
+Qed.
 
 (** ** the expression [_f1] had BEFORE the repair, [((1.0 + beta_sq) * precision * recall) / (beta_sq * precision + recall)] *)
 (** (2) for counts below 2^53 and every beta with a finite square it is finite and non-negative ... *)
